@@ -33,7 +33,8 @@ COMPONENTS = {
 ASSUMPTIONS = ["Python has one low-power flag: HALT and OFF compare as 'not running'", "TEMP registers and raw F bits 2-7 "
                "are excluded, as in the project's own tools/llama_parity_sweep.py"]
 PROBES = ["prefix", "block_instr", "call_ret", "branch_taken_back", "lowpower", "scramble", "transplant", "imem_write",
-          "ext_write", "ended_at_noncanonical", "ended_at_reject"]
+          "ext_write", "ended_at_reject"]
+BLOCK_LIMIT = 0x400     # block instructions with more iterations than this end a run unjudged (cost bound)
 FIELDS = ["pc", "opcode", "length", "BA", "I", "X", "Y", "U", "S", "PC", "FC", "FZ", "power", "writes", "error"]
 
 
@@ -42,8 +43,8 @@ def batches(tier: str) -> List[Batch]:
     # lock-tail: programs drawn only from opcodes with no recorded divergence, so that runs keep lockstep for
     # their whole length and the faults land in long histories
     if tier == "quick":
-        return [Batch("lock", "py+rs-core", 1500, 50), Batch("lock-clean", "py+rs-core", 500, 50, faulty=False),
-                Batch("lock-tail", "py+rs-core", 700, 50)]
+        return [Batch("lock", "py+rs-core", 12000, 100), Batch("lock-clean", "py+rs-core", 4000, 100, faulty=False),
+                Batch("lock-tail", "py+rs-core", 8000, 100)]
     return [Batch("lock", "py+rs-core", 300000, 200), Batch("lock-clean", "py+rs-core", 100000, 200, faulty=False),
             Batch("lock-tail", "py+rs-core", 200000, 200)]
 
@@ -124,7 +125,7 @@ def execute(scn: Dict[str, Any]) -> Dict[str, Any]:
     while done < scn["steps"]:
         nxt = faults[fi][0] if fi < len(faults) else scn["steps"]
         seg = max(0, min(nxt, scn["steps"]) - done)
-        recs = core.py_run(emu, bus, seg, stop_at=core.EXCLUDED) if seg else []
+        recs = core.py_run(emu, bus, seg, stop_at=core.EXCLUDED, block_limit=BLOCK_LIMIT) if seg else []
         for rec in recs:
             for a, v in rec[13]:
                 cum[a] = v
@@ -135,7 +136,9 @@ def execute(scn: Dict[str, Any]) -> Dict[str, Any]:
             from sc62015.pysc62015.emulator import RegisterName as R
             pc = emu.regs.get(R.PC) & 0xFFFFF
             f0 = bus.rd(pc)
-            py_end = {"pc": pc, "first": bus.rd(pc + 1) if f0 in core.PRES else f0, "halted": bool(emu.state.halted)}
+            first = bus.rd(pc + 1) if f0 in core.PRES else f0
+            py_end = {"pc": pc, "first": first, "halted": bool(emu.state.halted),
+                      "long_block": bool(first in core.BLOCK_OPS and emu.regs.get(R.I) > BLOCK_LIMIT)}
             break
         if fi < len(faults):
             emu, bus = _py_apply_fault(emu, bus, faults[fi], scn, cum)
@@ -218,7 +221,7 @@ def check(scn: Dict[str, Any], hist: Dict[str, Any]) -> List[Dict[str, Any]]:
             break
     else:
         end = hist.get("py_end")
-        if len(py) < len(rs) and ((py and py[-1][14]) or (end and end["first"] in core.EXCLUDED)):
+        if len(py) < len(rs) and ((py and py[-1][14]) or (end and (end["first"] in core.EXCLUDED or end.get("long_block")))):
             hist["_py_reject"] = 1      # the reference stopped at bytes it rejects or at RESET/WAIT (not compared)
         elif len(py) != len(rs):
             k = n
